@@ -49,6 +49,8 @@ enum Ev {
     V2Enabled(bool),
     SetRule(u8, Rule), // endpoint 0 ws, 1 imds, 2 hostga
     Rotate,
+    /// the host latches, on its own, a key this guest never obtained (the status names an unknown key id)
+    LatchOther,
     Fault(Fault),
     Noop,
 }
@@ -109,6 +111,10 @@ impl HostModel {
                 self.rules[ep as usize] = r;
             }
             Ev::Rotate => self.latched = None,
+            Ev::LatchOther => {
+                self.latched = Some(self.issued);
+                self.issued += 1;
+            }
             Ev::Fault(f) => self.fault = Some(f),
             Ev::Noop => {}
         }
@@ -178,7 +184,37 @@ struct Shared {
     cv: Condvar,
     attest_problems: Mutex<Vec<String>>,
     log: Mutex<Vec<String>>,
+    /// C10 mode: the running agent (to start signer probes on its runtime) and what the probes revealed
+    agent: Mutex<Option<(tokio::runtime::Handle, gpa_harness::shared_state::key_keeper_wrapper::KeyKeeperSharedState)>>,
+    sign_problems: Mutex<Vec<(String, String)>>,
+    probes: std::sync::atomic::AtomicU64,
+    probes_verified: std::sync::atomic::AtomicU64,
+    c10: bool,
 }
+
+const GOALSTATE: &str = r#"<?xml version="1.0" encoding="utf-8"?><GoalState><Version>2015-04-05</Version><Incarnation>16</Incarnation><Machine><ExpectedState>Started</ExpectedState><StopRolesDeadlineHint>300000</StopRolesDeadlineHint><LBProbePorts><Port>16001</Port></LBProbePorts><ExpectHealthReport>FALSE</ExpectHealthReport></Machine><Container><ContainerId>c</ContainerId><RoleInstanceList><RoleInstance><InstanceId>i</InstanceId><State>Started</State><Configuration><HostingEnvironmentConfig>http://168.63.129.16:80/machine/c/i?comp=config&amp;type=hostingEnvironmentConfig&amp;incarnation=16</HostingEnvironmentConfig><SharedConfig>http://168.63.129.16:80/machine/c/i?comp=config&amp;type=sharedConfig&amp;incarnation=16</SharedConfig><ExtensionsConfig>http://168.63.129.16:80/machine/c/i?comp=config&amp;type=extensionsConfig&amp;incarnation=16</ExtensionsConfig><FullConfig>http://168.63.129.16:80/machine/c/i?comp=config&amp;type=fullConfig&amp;incarnation=16</FullConfig><Certificates>http://168.63.129.16:80/machine/c/i?comp=certificates&amp;incarnation=16</Certificates><ConfigName>x.xml</ConfigName></Configuration></RoleInstance></RoleInstanceList></Container></GoalState>"#;
+
+/// C10 mode: while the key keeper waits for the host's answer to `at` (status / acquire / attest), one of
+/// the agent's own signed host calls (WireServerClient::get_goalstate) runs to completion on the agent's
+/// runtime; the mock verifies it from its raw bytes under the key its key id names
+fn probe(sh: &Arc<Shared>, at: &str) {
+    if !sh.c10 {
+        return;
+    }
+    let Some((handle, kk)) = sh.agent.lock().unwrap().clone() else { return };
+    *PROBE_AT.lock().unwrap() = at.to_string();
+    let (tx, rx) = std::sync::mpsc::channel();
+    handle.spawn(async move {
+        let wsc = gpa_harness::host_clients::wire_server_client::WireServerClient::new("168.63.129.16", 80, kk);
+        let _ = wsc.get_goalstate().await;
+        let _ = tx.send(());
+    });
+    sh.probes.fetch_add(1, std::sync::atomic::Ordering::SeqCst);
+    if rx.recv_timeout(Duration::from_secs(10)).is_err() {
+        sh.sign_problems.lock().unwrap().push(("signer-stuck".into(), format!("a signed host call started while the key keeper waited for the answer to {at} did not finish")));
+    }
+}
+static PROBE_AT: Mutex<String> = Mutex::new(String::new());
 
 fn start_host(sh: Arc<Shared>) -> MockHost {
     let h = MockHost::start("wireserver", world::WS).unwrap_or_else(|e| vcommon::result::machinery(&format!("cannot bind {}: {e} (not inside bin/ns?)", world::WS)));
@@ -200,6 +236,7 @@ fn start_host(sh: Arc<Shared>) -> MockHost {
             g.parked = false;
             g.polls_answered += 1;
             drop(g);
+            probe(&sh, "status");
             let mut model = sh.model.lock().unwrap();
             let f = model.fault;
             match f {
@@ -220,6 +257,7 @@ fn start_host(sh: Arc<Shared>) -> MockHost {
             }
             Action::Reply(vec![simple_response(200, &[("Content-Type", "application/json; charset=utf-8")], model.status_doc().to_string().as_bytes())])
         } else if t == "/secure-channel/key" {
+            probe(&sh, "acquire");
             let mut model = sh.model.lock().unwrap();
             match model.fault {
                 Some(Fault::Acquire500) => {
@@ -238,6 +276,7 @@ fn start_host(sh: Arc<Shared>) -> MockHost {
             let doc = json!({"authorizationScheme": "Azure-HMAC-SHA256", "guid": key_guid(i), "issued": "2026-01-01T00:00:00Z", "key": key_secret(i), "incarnationId": 1});
             Action::Reply(vec![simple_response(200, &[("Content-Type", "application/json")], doc.to_string().as_bytes())])
         } else if t.starts_with("/secure-channel/key/") && t.ends_with("/key-attestation") {
+            probe(&sh, "attest");
             let mut model = sh.model.lock().unwrap();
             if model.fault == Some(Fault::Attest500) {
                 model.fault = None;
@@ -269,8 +308,23 @@ fn start_host(sh: Arc<Shared>) -> MockHost {
                     Action::Reply(vec![simple_response(200, &[], b"")])
                 }
             }
+        } else if t.starts_with("/machine") {
+            // a signer probe: id and MAC must belong together (any key the host ever issued may be named)
+            let issued = sh.model.lock().unwrap().issued;
+            let mut keys = HashMap::new();
+            for i in 0..issued {
+                keys.insert(key_guid(i), key_secret(i));
+            }
+            let sent: Vec<String> = m.headers.iter().map(|h| h.0.to_lowercase()).collect();
+            let at = PROBE_AT.lock().unwrap().clone();
+            match hostcheck::verify_signature(m, &keys, &sent) {
+                hostcheck::SigVerdict::Valid { .. } | hostcheck::SigVerdict::Unsigned => {
+                    sh.probes_verified.fetch_add(1, std::sync::atomic::Ordering::SeqCst);
+                }
+                hostcheck::SigVerdict::Bad(why) => sh.sign_problems.lock().unwrap().push((format!("id-secret-mismatch:goalstate:during-{at}"), format!("a goal-state request signed while the key keeper waited for the host's answer to its {at} request: {why}; authorization {:?}", m.header(sigref::AUTHZ)))),
+            }
+            Action::Reply(vec![simple_response(200, &[("Content-Type", "text/xml; charset=utf-8")], GOALSTATE.as_bytes())])
         } else {
-            let _ = sigref::AUTHZ;
             Action::Reply(vec![simple_response(404, &[], b"")])
         }
     }));
@@ -301,7 +355,7 @@ fn claims(user: &str) -> Claims {
 }
 
 impl Agent {
-    fn start(bpf: Arc<std::sync::Mutex<BpfObject>>, policy_fd: i32) -> Agent {
+    fn start(sh: &Arc<Shared>, bpf: Arc<std::sync::Mutex<BpfObject>>, policy_fd: i32) -> Agent {
         // the BPF object (kernel maps) is loaded once and shared by all histories: start from an empty policy map
         {
             let pm = RawMap { fd: policy_fd, key_size: 24, value_size: 24 };
@@ -330,6 +384,7 @@ impl Agent {
             })
             .unwrap();
         let (handle, shared, policy) = rx.recv_timeout(Duration::from_secs(10)).unwrap_or_else(|_| vcommon::result::machinery("subject runtime did not start"));
+        *sh.agent.lock().unwrap() = Some((handle.clone(), shared.get_key_keeper_shared_state()));
         Agent { handle, shared, policy, join: Some(join) }
     }
     fn observe(&self) -> AgentObs {
@@ -364,6 +419,7 @@ impl Agent {
         AgentObs { state, key_guid, key_value, rules, decisions, rule_ids, key_files, policy_map }
     }
     fn stop(mut self, sh: &Shared, host: &MockHost) {
+        *sh.agent.lock().unwrap() = None;
         self.shared.cancel_cancellation_token();
         {
             let mut g = sh.gate.lock().unwrap();
@@ -475,7 +531,8 @@ fn run_history(sh: &Arc<Shared>, host: &MockHost, hist: &[Ev]) -> HistOut {
     *sh.model.lock().unwrap() = HostModel::new();
     sh.attest_problems.lock().unwrap().clear();
     sh.log.lock().unwrap().clear();
-    let agent = Agent::start(bpf, policy_fd);
+    sh.sign_problems.lock().unwrap().clear();
+    let agent = Agent::start(sh, bpf, policy_fd);
     if !wait_parked(sh) {
         vcommon::result::machinery("the key keeper never sent its first status request");
     }
@@ -504,6 +561,9 @@ fn run_history(sh: &Arc<Shared>, host: &MockHost, hist: &[Ev]) -> HistOut {
             let ap = sh.attest_problems.lock().unwrap().clone();
             for p in ap {
                 problems.push(("attest-protocol".into(), p));
+            }
+            for p in sh.sign_problems.lock().unwrap().clone() {
+                problems.push(p);
             }
             if status_fault {
                 if after != before {
@@ -582,12 +642,26 @@ fn run_history(sh: &Arc<Shared>, host: &MockHost, hist: &[Ev]) -> HistOut {
     HistOut { problems, canon, polls }
 }
 
+/// C10 mode keeps only what the signer probes found (the C09 oracles are C09's business) and adds the probe counts
+fn fin(res: &mut EngineResult, sh: &Arc<Shared>) -> i32 {
+    if sh.c10 {
+        res.violations.retain(|k, _| k.starts_with("id-secret-mismatch") || k.starts_with("signer-stuck") || k.starts_with("panic"));
+        if vcommon::result::worker().is_some() || std::env::var("VERIF_NO_SHARD").is_ok() || std::env::var("VERIF_REPLAY").is_ok() {
+            res.cov("signer_probes_started", sh.probes.load(std::sync::atomic::Ordering::SeqCst));
+            res.cov("signer_probes_verified_at_host", sh.probes_verified.load(std::sync::atomic::Ordering::SeqCst));
+        }
+        res.cov("probe_rule", "in every history of the host-behaviour BFS, each time the real key keeper waits for the host's answer to a status, key-acquisition or attestation request, WireServerClient::get_goalstate runs to completion on the agent's runtime and is verified at the mock host from its raw bytes under the key its key id names".to_string());
+    }
+    res.finish()
+}
+
 fn main() {
     proxy_agent_shared::logger::logger_manager::set_logger_level(proxy_agent_shared::logger::LoggerLevel::Error);
     world::install_panic_recorder();
     let thorough = is_thorough();
-    let mut res = EngineResult::new("C09");
-    let sh = Arc::new(Shared { model: Mutex::new(HostModel::new()), gate: Mutex::new(Gate { parked: false, permits: 0, shutdown: false, polls_answered: 0 }), cv: Condvar::new(), attest_problems: Mutex::new(vec![]), log: Mutex::new(vec![]) });
+    let c10 = std::env::var("VERIF_PROPERTY").map(|p| p == "C10").unwrap_or(false);
+    let mut res = EngineResult::new(if c10 { "C10" } else { "C09" });
+    let sh = Arc::new(Shared { model: Mutex::new(HostModel::new()), gate: Mutex::new(Gate { parked: false, permits: 0, shutdown: false, polls_answered: 0 }), cv: Condvar::new(), attest_problems: Mutex::new(vec![]), log: Mutex::new(vec![]), agent: Mutex::new(None), sign_problems: Mutex::new(vec![]), probes: Default::default(), probes_verified: Default::default(), c10 });
     let _host = if vcommon::result::worker().is_some() || std::env::var("VERIF_NO_SHARD").is_ok() || std::env::var("VERIF_REPLAY").is_ok() { Some(start_host(sh.clone())) } else { None };
     {
         let bpf = BpfObject::from_ebpf_file(&world::ebpf_object_path()).unwrap_or_else(|e| vcommon::result::machinery(&format!("bpf object: {e}")));
@@ -595,7 +669,7 @@ fn main() {
         let _ = BPF.set((Arc::new(std::sync::Mutex::new(bpf)), fd));
     }
 
-    let mut alphabet: Vec<Ev> = vec![Ev::Noop, Ev::V1(0), Ev::V1(1), Ev::V1(2), Ev::V2Enabled(true), Ev::V2Enabled(false), Ev::Rotate];
+    let mut alphabet: Vec<Ev> = vec![Ev::Noop, Ev::V1(0), Ev::V1(1), Ev::V1(2), Ev::V2Enabled(true), Ev::V2Enabled(false), Ev::Rotate, Ev::LatchOther];
     let rule_vals: Vec<Rule> = if thorough { vec![Rule::Absent, Rule::Audit, Rule::Enforce, Rule::Disabled] } else { vec![Rule::Absent, Rule::Audit, Rule::Enforce] };
     for ep in 0..3u8 {
         for r in &rule_vals {
@@ -630,7 +704,7 @@ fn main() {
         res.cov("transitions", hist.len() as u64);
         res.cov("traces_validated_against_impl", 1);
         res.sample(doc["case"].clone());
-        std::process::exit(res.finish());
+        std::process::exit(fin(&mut res, &sh));
     }
 
     let me = vcommon::result::worker();
@@ -642,7 +716,7 @@ fn main() {
         res.cov("workers", n as u64);
         res.cov("depth_bound", if thorough { 5u64 } else { 3 });
         res.cov("states_note", "states are unique per worker shard (histories are sharded by their first event) and summed");
-        std::process::exit(res.finish());
+        std::process::exit(fin(&mut res, &sh));
     }
     let (wi, wn) = me.unwrap_or((0, 1));
     // determinism gate
@@ -754,8 +828,8 @@ fn main() {
     res.cov("max_depth", maxd as u64);
     res.cov("wall_cap_hit", capped);
     res.cov("exhaustive", !capped);
-    res.cov("rule", format!("BFS over histories of host events (protocol 1.0 states, 2.0 enabled flag, per-endpoint rule item in {:?} for wireserver/imds/hostga, rotate = host forgets its latch, one-shot faults at status/acquire/attest, no-op poll; {} events) to depth {depth}, plus each of 11 unreadable answer shapes (channel-state field of the document's version missing or unusable, mandatory field missing, not an object) after 8 base histories, one real agent poll per event in lock-step, deduplicated on (host model, agent getters, key directory, kernel policy map); each history replayed from scratch on the real KeyKeeper with a paused clock", rule_vals, alphabet.len()));
+    res.cov("rule", format!("BFS over histories of host events (protocol 1.0 states, 2.0 enabled flag, per-endpoint rule item in {:?} for wireserver/imds/hostga, rotate = host forgets its latch, host latches a key the guest never had, one-shot faults at status/acquire/attest, no-op poll; {} events) to depth {depth}, plus each of 11 unreadable answer shapes (channel-state field of the document's version missing or unusable, mandatory field missing, not an object) after 8 base histories, one real agent poll per event in lock-step, deduplicated on (host model, agent getters, key directory, kernel policy map); each history replayed from scratch on the real KeyKeeper with a paused clock", rule_vals, alphabet.len()));
     res.assume("distinct rule contents have distinct ids (host contract; replacement is keyed on the id)");
     res.assume("mode of an endpoint: protocol 2.0 = mode of its rule item, disabled when absent, HostGAPlugin follows WireServer; protocol 1.0 = never disabled");
-    std::process::exit(res.finish());
+    std::process::exit(fin(&mut res, &sh));
 }
